@@ -646,7 +646,8 @@ class HistState:
                     rule.style.setProperty(css.Property('right', '4px'))
                 elif v == 8:
                     # the text of the whole rule: a new declaration block replaces the old one
-                    if rule.type == rule.STYLE_RULE:
+                    if rule.type == rule.STYLE_RULE and not rule.selectorList._getUsedUris():
+                        # (same selector as every generated rule without namespaces: the model's view is unchanged)
                         rule.cssText = '.a{top: 8px; color: blue}'
                     elif rule.type == rule.FONT_FACE_RULE:
                         rule.cssText = '@font-face{font-family: y}'
@@ -745,8 +746,16 @@ class Env:
         self.oracle = c09_oracle.Oracle(ctx)
         # which of the listed known findings reproduce on the tree under test (their regions are attributed only then)
         from lib.framework import load_known
+        import subprocess
+        try:
+            subjects = set(subprocess.run(['git', '-C', ctx.repo, 'log', '--format=%s', '-400'], capture_output=True,
+                                          text=True, timeout=30).stdout.split('\n'))
+        except Exception:
+            subjects = set()
         for f in load_known('C09'):
-            if f.get('status') == 'known':
+            # a finding whose fix commit is in the history of the tree under test is fixed there: nothing is
+            # attributed to it, so a regression is reported as a violation
+            if f.get('status') == 'known' and f.get('commit_subject') not in subjects:
                 try:
                     if c09_oracle.replay_known(self, f):
                         self.oracle.active_known.add(f['id'])
